@@ -71,9 +71,18 @@ package innerstorage
 //@   sets kvWrites = kvWrites + 1
 // (frame assumed: it appends only to its own result slices, which the syntactic frame check cannot see
 // through the heap cells of named results; every postcondition below is checked against the body)
+// C08: every element that enters (or is restored into) the advertised index is computed from a STORED
+// DOCUMENT by the one function the start-up rebuild uses as well (anyEncToElement) - so the index after
+// incremental writes equals the index rebuilt from the database, whatever a float round trip does to
+// a timestamp.
+//@ ghost encElems Int stable
+//@ func anyEncToElement
+//@   modifies nothing
+//@   sets encElems = encElems + 1
 //@ func (*storage).updateValues
 //@   trusted
 //@   modifies nothing
+//@   ensures [index_elements_come_from_stored_documents] err == nil ==> len(elements) + len(prior) == encElems - old(encElems)
 //@   requires s != nil && s.collection != nil
 //@   requires [ctx_is_tx] ctx == txCtx(curTx)
 //@   ensures [every_value_looked_up] err == nil ==> kvFinds == old(kvFinds) + len(values)
@@ -82,6 +91,7 @@ package innerstorage
 //@     invariant -1 <= rangeindex && rangeindex < len(values) && err == nil
 //@     invariant kvFinds == old(kvFinds) + rangeindex + 1
 //@     invariant len(elements) == kvWrites - old(kvWrites) && len(elements) == len(prior) + len(added)
+//@     invariant len(elements) + len(prior) == encElems - old(encElems)
 
 // Set: one write transaction around the batch (C10 discipline: commit exactly when everything
 // succeeded, otherwise roll back; an error is never swallowed), every storage write inside it, and -
